@@ -324,7 +324,7 @@ impl ConnectionManager {
             let cap = match self.config.max_concurrent_outstanding_connecting_connections { Some(n) => n as nat, None => 100nat };
             let establishing = self.pending_connections.n as nat;
             r as nat == natmin(eligible@.len(), if cap >= establishing { (cap - establishing) as nat } else { 0nat })
-        }), // @OBL connectivity_check::number_to_dial::cap [C13] the number of background dials started at a tick is min(eligible, cap - connections being established): none while that number is at the configured maximum (inbound handshakes and explicit dials count too)
+        }), // @OBL connectivity_check::number_to_dial::cap [C13,C10] the number of background dials started at a tick is min(eligible, cap - connections being established): none while that number is at the configured maximum (inbound handshakes and explicit dials count too)
 """)
     # the body of the `for mut peer in eligible..take(n)` loop
     t += C.lifted(CM, 'impl ConnectionManager :: fn handle_connectivity_check', 'ConnectionManager::handle_connectivity_check::dial_one', ['C13'],
